@@ -19,7 +19,9 @@ pub struct Ping {
 #[repr(C)]
 #[derive(Serialize, Deserialize, Archive, Debug)]
 #[archive(check_bytes)]
-pub struct Pong {
+/// (the second message type; its name - and with it its path - starts with the first one's: paths are all a server can
+/// tell message types by)
+pub struct PingPong {
     value: u64,
 }
 
@@ -84,9 +86,9 @@ macro_rules! service {
             }
         }
         #[datacake_rpc::async_trait]
-        impl Handler<Pong> for $name {
+        impl Handler<PingPong> for $name {
             type Reply = u64;
-            async fn on_message(&self, msg: Request<Pong>) -> Result<Self::Reply, Status> {
+            async fn on_message(&self, msg: Request<PingPong>) -> Result<Self::Reply, Status> {
                 Ok($tag * 1_000_000 + 200_000 + msg.value % HOLD)
             }
         }
@@ -95,7 +97,7 @@ macro_rules! service {
 
 service!(SvcA, 1, [Ping]);
 service!(SvcB, 2, [Ping]);
-service!(SvcC, 3, [Ping, Pong]);
+service!(SvcC, 3, [Ping, PingPong]);
 
 /// A second service type that registers under SvcA's name (`service_name` overridden) and handles the other message.
 pub struct SvcA2(pub Gate);
@@ -104,13 +106,13 @@ impl RpcService for SvcA2 {
         SvcA::service_name()
     }
     fn register_handlers(registry: &mut ServiceRegistry<Self>) {
-        registry.add_handler::<Pong>();
+        registry.add_handler::<PingPong>();
     }
 }
 #[datacake_rpc::async_trait]
-impl Handler<Pong> for SvcA2 {
+impl Handler<PingPong> for SvcA2 {
     type Reply = u64;
-    async fn on_message(&self, msg: Request<Pong>) -> Result<Self::Reply, Status> {
+    async fn on_message(&self, msg: Request<PingPong>) -> Result<Self::Reply, Status> {
         Ok(4 * 1_000_000 + 200_000 + msg.value % HOLD)
     }
 }
@@ -126,7 +128,7 @@ impl<const N: u8> RpcService for Bystander<N> {
     }
     fn register_handlers(registry: &mut ServiceRegistry<Self>) {
         registry.add_handler::<Ping>();
-        registry.add_handler::<Pong>();
+        registry.add_handler::<PingPong>();
     }
 }
 #[datacake_rpc::async_trait]
@@ -137,9 +139,9 @@ impl<const N: u8> Handler<Ping> for Bystander<N> {
     }
 }
 #[datacake_rpc::async_trait]
-impl<const N: u8> Handler<Pong> for Bystander<N> {
+impl<const N: u8> Handler<PingPong> for Bystander<N> {
     type Reply = u64;
-    async fn on_message(&self, msg: Request<Pong>) -> Result<Self::Reply, Status> {
+    async fn on_message(&self, msg: Request<PingPong>) -> Result<Self::Reply, Status> {
         Ok(9_500_000 + N as u64 * 1000 + msg.value % 1000)
     }
 }
@@ -204,11 +206,11 @@ async fn probe_all(chan: &Channel, nonce: u64) -> Result<BTreeSet<(String, Strin
     let results = vec![
         ("A", "Ping", probe::<SvcA, Ping>(chan, Ping { value: nonce }, 1_100_000 + nonce).await),
         // Pong under the name "A" is registered by SvcA2 only (SvcA implements it but never registers it)
-        ("A", "Pong", probe::<SvcA2, Pong>(chan, Pong { value: nonce }, 4_200_000 + nonce).await),
+        ("A", "Pong", probe::<SvcA2, PingPong>(chan, PingPong { value: nonce }, 4_200_000 + nonce).await),
         ("B", "Ping", probe::<SvcB, Ping>(chan, Ping { value: nonce }, 2_100_000 + nonce).await),
-        ("B", "Pong", probe::<SvcB, Pong>(chan, Pong { value: nonce }, 2_200_000 + nonce).await),
+        ("B", "Pong", probe::<SvcB, PingPong>(chan, PingPong { value: nonce }, 2_200_000 + nonce).await),
         ("C", "Ping", probe::<SvcC, Ping>(chan, Ping { value: nonce }, 3_100_000 + nonce).await),
-        ("C", "Pong", probe::<SvcC, Pong>(chan, Pong { value: nonce }, 3_200_000 + nonce).await),
+        ("C", "Pong", probe::<SvcC, PingPong>(chan, PingPong { value: nonce }, 3_200_000 + nonce).await),
     ];
     for (s, m, r) in results {
         match r {
@@ -344,9 +346,9 @@ async fn run_history(hi: usize, h: &Value) -> HistResult {
                 let n = (hi % 64) as u64;
                 let ok = match n % 4 {
                     0 => probe::<Bystander<0>, Ping>(&chan, Ping { value: 5 }, 9_000_005).await,
-                    1 => probe::<Bystander<21>, Pong>(&chan, Pong { value: 5 }, 9_521_005).await,
+                    1 => probe::<Bystander<21>, PingPong>(&chan, PingPong { value: 5 }, 9_521_005).await,
                     2 => probe::<Bystander<42>, Ping>(&chan, Ping { value: 5 }, 9_042_005).await,
-                    _ => probe::<Bystander<63>, Pong>(&chan, Pong { value: 5 }, 9_563_005).await,
+                    _ => probe::<Bystander<63>, PingPong>(&chan, PingPong { value: 5 }, 9_563_005).await,
                 };
                 if ok != Probe::Served {
                     res.violation = Some(json!({"property": "C13", "hist": h["hist"], "step": i + 1,
